@@ -37,6 +37,12 @@ func main() {
 	switch *kind {
 	case "dr":
 		h.GenDr(rng, thorough, emit)
+	case "conv":
+		n := 3000
+		if thorough {
+			n = 40000
+		}
+		h.GenConvMix(rng, n, emit)
 	default:
 		fmt.Fprintln(os.Stderr, "unknown kind", *kind)
 		os.Exit(2)
